@@ -1,4 +1,9 @@
-(* C18 correspondence: compare the model with what was observed on the real code. *)
+(* C18 correspondence: compare the model with what was observed on the real code.
+   Compared: which datagrams are accepted / answered, the decoded fields of accepted packets, the
+   bytes of every answer, the set of peers a discovery call reports.  NOT compared (the property
+   leaves them open): the exception class by which a datagram or a call is rejected, whether a
+   rejected datagram makes the handler return or raise into the event loop (the harness checks
+   separately that the responder and the loop survive), the order of the peers reported. *)
 Require Export QV.Lib.Corr QV.C18.Model.
 Open Scope N_scope.
 
@@ -10,13 +15,14 @@ Definition exn_eqb (a b : exn) : bool :=
   | _, _ => false
   end.
 
+(* nothing sent: the handler returned, or an exception left it (any class) *)
+Definition quiet (h : hout) : bool := match h with HNothing | HRaise _ => true | _ => false end.
+
 Definition hout_eqb (a b : hout) : bool :=
   match a, b with
-  | HNothing, HNothing => true
-  | HRaise e, HRaise f => exn_eqb e f
   | HSend x, HSend y => bytes_eqb x y
   | HExit, HExit => true
-  | _, _ => false
+  | _, _ => quiet a && quiet b
   end.
 
 (* what the harness reads off the structure returned by unpack_qmi_udp_packet:
@@ -26,8 +32,7 @@ Inductive uobs :=
 | UO_req (id : N) (ts wf cf raw : list N)
 | UO_kill (id : N) (ts raw : list N)
 | UO_resp (id : N) (ts : list N) (rid : N) (rts : list N) (pid : Z) (name wg : list N) (port : Z) (raw : list N)
-| UO_qmi_exc        (* QMI_RuntimeException *)
-| UO_value_exc.     (* ValueError *)
+| UO_rejected.      (* any exception: the datagram is not accepted *)
 
 Definition uview (r : ures) : uobs :=
   match r with
@@ -35,8 +40,7 @@ Definition uview (r : ures) : uobs :=
   | UOk (Kill id ts) => UO_kill id ts (pack (Kill id ts))
   | UOk (Response id ts rid rts pid name wg port) =>
       UO_resp id ts rid rts pid (cstr name) (cstr wg) port (pack (Response id ts rid rts pid name wg port))
-  | UErr NotATag => UO_value_exc
-  | UErr _ => UO_qmi_exc
+  | UErr _ => UO_rejected
   end.
 
 Definition uobs_eqb (a b : uobs) : bool :=
@@ -47,8 +51,7 @@ Definition uobs_eqb (a b : uobs) : bool :=
   | UO_resp i t ri rt p n w po r, UO_resp i' t' ri' rt' p' n' w' po' r' =>
       (i =? i') && bytes_eqb t t' && (ri =? ri') && bytes_eqb rt rt' && Z.eqb p p' && bytes_eqb n n'
       && bytes_eqb w w' && Z.eqb po po' && bytes_eqb r r'
-  | UO_qmi_exc, UO_qmi_exc => true
-  | UO_value_exc, UO_value_exc => true
+  | UO_rejected, UO_rejected => true
   | _, _ => false
   end.
 
@@ -62,12 +65,14 @@ Definition ping_request (id : N) (ts wf cf : list N) : pres :=
 Definition pres_eqb (a b : pres) : bool :=
   match a, b with
   | PSent x, PSent y => bytes_eqb x y
-  | PRaise e, PRaise f => exn_eqb e f
+  | PRaise _, PRaise _ => true          (* the call fails before sending; class not compared *)
   | _, _ => false
   end.
 
-Definition found_eqb : list (list N * Z) -> list (list N * Z) -> bool :=
-  list_eqb (pair_eqb bytes_eqb Z.eqb).
+(* the peers reported, as a set *)
+Definition peer_eqb := pair_eqb bytes_eqb Z.eqb.
+Definition subset (a b : list (list N * Z)) : bool := forallb (fun x => existsb (peer_eqb x) b) a.
+Definition found_eqb (a b : list (list N * Z)) : bool := subset a b && subset b a.
 
 Inductive case :=
 | CUnpack (bs : list N) (o : uobs)
